@@ -111,9 +111,9 @@ def showErr : Err → String
   | .emptyRecipientCache => "err:Custom1005"
   | .accountDataTooSmall => "err:AccountDataTooSmall"
   | .invalidAccountOwner => "err:InvalidAccountOwner"
-  | .borshIo => "err:BorshIoError"
+  | .borshIo => "err:Custom9001"
   | .insufficientFunds => "err:InsufficientFunds"
-  | .initFailed => "err:InitFailed"
+  | .initFailed => "err:Custom9004"
 
 def showSeedSets (sets : List (List (List Nat))) : String :=
   "[" ++ "|".intercalate (sets.map fun set => ".".intercalate (set.map toHex)) ++ "]"
